@@ -79,7 +79,7 @@ def database():
     w.commit()
     w.index()
     w.close()
-    _st['db'], _st['ids'] = Database(str(path)), ids
+    _st['db'], _st['ids'], _st['path'] = Database(str(path)), ids, str(path)
     return _st['db'], ids
 
 
@@ -195,6 +195,72 @@ def run_case(case):
         return [('machinery', f'{type(e).__name__}: {e}\n{traceback.format_exc()}')]
 
 
+def make_query(f, q, count=False):
+    from AEIC.missions import CountQuery, Query
+
+    day = lambda n: D0 + dt.timedelta(days=n)  # noqa: E731
+    kw = {}
+    if q['start'] >= 0:
+        kw['start_date'] = day(q['start'])
+    if q['end'] >= 0:
+        kw['end_date'] = day(q['end'])
+    flt, _ = build_filter(f)
+    if count:
+        return CountQuery(filter=flt, **kw)
+    if q['nth'] != 1:
+        kw['every_nth'] = q['nth']
+    if q['limit'] >= 0:
+        kw['limit'] = q['limit']
+    if q['offset'] >= 0:
+        kw['offset'] = q['offset']
+    return Query(filter=flt, **kw)
+
+
+def run_session(sess):
+    """One QuerySession.tla behaviour on one real Database object: result
+    generators are consumed row by row in the interleaving of the behaviour."""
+    warnings.simplefilter('ignore')
+    try:
+        from AEIC.missions import Database
+
+        db0, ids = database()
+        db = Database(_st['path'])
+        pal, hist = sess['pal'], sess['hist']
+        gens = {}
+        done = []
+        try:
+            for k, e in enumerate(hist):
+                p = pal[e['qi'] - 1]
+                if e['op'] == 'open':
+                    gens[e['s']] = iter(db(make_query(p['f'], p['q'])))
+                    done.append(('open', e['s'], e['qi']))
+                    continue
+                if e['op'] == 'count':
+                    got = db(make_query(p['f'], p['q'], count=True))
+                    want = e['v'][0]
+                    done.append(('count', e['qi'], got))
+                else:
+                    try:
+                        r = next(gens[e['s']], None)
+                    except Exception as ex:
+                        return [(f'session:next-raised-{type(ex).__name__}', f'operation {k} (next on stream {e["s"]}, query {e["qi"]}) after {done} raised {type(ex).__name__}: {ex}')]
+                    got = None if r is None else r.id
+                    want = None if e['v'][1] == -1 else ids[(e['v'][0], e['v'][1])]
+                    done.append(('next', e['s'], got))
+                if got != want:
+                    return [(f'session:{e["op"]}', f'operation {k} ({e["op"]} on stream {e["s"]}, palette query {e["qi"]}) returned {got}; specification: {want}; operations so far on this Database object: {done}')]
+            return []
+        finally:
+            for g in gens.values():
+                close = getattr(g, 'close', None)
+                if close:
+                    close()
+    except Exception as e:
+        import traceback
+
+        return [('machinery', f'{type(e).__name__}: {e}\n{traceback.format_exc()}')]
+
+
 def shipped_db_checks(ctx):
     """Second tier on the shipped test database: the same predicate evaluated in
     Python over the joined tables for a handful of filter shapes, plus the
@@ -250,7 +316,7 @@ def run(ctx: Ctx):
     ctx.rule = (
         'cases (TLC-enumerated): every filter with at most 2 populated parts out of distance range (7) x seat range (4) x service (4) x aircraft (4) x spatial (55 incl. every '
         'kind on origin / destination / either end, legal and illegal mixes) with default query parameters; 4 filters x all start/end/every-nth/limit/offset combinations; '
-        're-execution cases (0-2 prior SQL builds, 2-3 runs); plus 5 filter shapes and the sampling band on the shipped test database; non-trivial = at least one populated filter part or non-default query parameter'
+        're-execution cases (0-2 prior SQL builds, 2-3 runs); random sessions of 24 operations (open a result / fetch one row of any open result / count) over 6 queries on one Database object; plus 5 filter shapes and the sampling band on the shipped test database; non-trivial = at least one populated filter part or non-default query parameter'
     )
     ctx.assumptions += [
         'generated database: 4 airports / 3 countries / 2 continents / 5 flights / 29 instances over 14 days, unique departure instants, schedule ids shuffled',
@@ -261,6 +327,9 @@ def run(ctx: Ctx):
         case = json.loads(Path(ctx.replay).read_text())['case']
         if 'f' in case:
             for key, desc in run_case(case):
+                ctx.violation(key, desc, case)
+        if 'hist' in case:
+            for key, desc in run_session(case):
                 ctx.violation(key, desc, case)
         return
     tlc.check(ctx, 'missions/Query', 'missions/MC_Query.cfg', workers=16, timeout=1800)
@@ -277,6 +346,21 @@ def run(ctx: Ctx):
             if key not in seen:
                 seen.add(key)
                 ctx.violation(key, desc, case)
+    # sessions: several lazily consumed results on one Database object
+    tlc.check(ctx, 'missions/QuerySession', 'missions/MC_QuerySession.cfg', workers=1)
+    neg = tlc.run('missions/QuerySession', 'missions/MC_QuerySession.cfg', sub={'Design = "isolated"': 'Design = "shared_cursor"', 'D = 3': 'D = 4'}, workers=1)
+    if 'Invariant Isolation is violated' not in neg['out']:
+        raise MachineryError('negative control failed: a cursor shared by all statements should violate Isolation')
+    ctx.extra['negative_control'] = 'QuerySession with Design=shared_cursor violates Isolation (open, open, count, next) as expected'
+    sess = tlc.check(ctx, 'missions/QuerySession', 'missions/Sim_QuerySession.cfg', workers=1, simulate=f'num={200 if ctx.quick else 4000}', depth=30, seed=ctx.seed)['emitted']
+    ctx.log(f'running {len(sess)} query sessions (24 interleaved operations each)')
+    for se, devs in zip(sess, pmap(run_session, sess)):
+        ctx.case_done(('session', [(e['op'], e['s'], e['qi']) for e in se['hist']]), nontrivial=True)
+        ctx.sample({'session': [(e['op'], e['s'], e['qi']) for e in se['hist']]}, limit=1)
+        for key, desc in devs:
+            if key == 'machinery':
+                raise MachineryError('query session worker failed: ' + desc)
+            ctx.violation(key, desc, se)
     from .traj_common import load_config
 
     load_config()
